@@ -16,6 +16,7 @@ import (
 	"github.com/taskctl/taskctl/pkg/runner"
 	"github.com/taskctl/taskctl/pkg/scheduler"
 	"github.com/taskctl/taskctl/pkg/task"
+	"github.com/taskctl/taskctl/pkg/utils"
 	"github.com/taskctl/taskctl/pkg/variables"
 
 	"verif/internal/h"
@@ -371,6 +372,11 @@ func runHistory(a args, idx int, r *h.Rand) {
 	var clock int64
 	hr := &histRunner{inner: newQuietRunner(), clock: &clock, meta: map[string]regIn{}, dir: dir, cid: map[string]int{}}
 	n := r.Range(6, 20)
+	// half of the histories: readers (and some writers) run in a named execution context, one object for all of them
+	named := r.Bool()
+	if named {
+		hr.inner.SetContexts(map[string]*runner.ExecutionContext{"nc": runner.NewExecutionContext(&utils.Binary{}, "", variables.FromMap(map[string]string{"CTXENV": "1"}), nil, nil, nil, nil)})
+	}
 	keys := []string{"K1_OUTPUT", "K2_OUTPUT"}
 	var stages []*scheduler.Stage
 	var names []string
@@ -388,6 +394,9 @@ func runHistory(a args, idx int, r *h.Rand) {
 			hr.meta[name] = regIn{Key: key}
 		}
 		t.Name = name
+		if named && r.Chance(60) {
+			t.Context = "nc"
+		}
 		hr.cid[name] = i
 		st := &scheduler.Stage{Name: name, Task: t}
 		for _, p := range names {
